@@ -136,21 +136,13 @@ func CheckC06(m *Model, events []sched.Event, cycle int, now time.Time, st *Stat
 			}
 		}
 	}
-	// per group evictions of this cycle (for the elastic exception)
-	evictedPerSet := map[string]map[string]int{}
+	// the elastic exception is judged when the evicting action ends: evictions of this cycle up to the last event of
+	// that action (a later action may shrink the workload further under its own rules)
+	lastOfAction := map[string]int{}
 	for i := range events {
-		e := &events[i]
-		if e.Kind != "evict" || !OK(e) {
-			continue
-		}
-		if p, ok := m.Pods[e.Key()]; ok && m.Active(p) {
-			if evictedPerSet[e.Group] == nil {
-				evictedPerSet[e.Group] = map[string]int{}
-			}
-			evictedPerSet[e.Group][podSetOf(p)]++
-		}
+		lastOfAction[events[i].Action] = i
 	}
-	staysAboveMin := func(group string) bool {
+	staysAboveMin := func(group, action string) bool {
 		pg := m.PodGroups[group]
 		mins := PodSets(pg)
 		before := map[string]int{}
@@ -159,7 +151,19 @@ func CheckC06(m *Model, events []sched.Event, cycle int, now time.Time, st *Stat
 				before[podSetOf(p)]++
 			}
 		}
-		for s, n := range evictedPerSet[group] {
+		evicted := map[string]int{}
+		seen := map[string]bool{}
+		for i := 0; i <= lastOfAction[action] && i < len(events); i++ {
+			e := &events[i]
+			if e.Kind != "evict" || !OK(e) || e.Group != group {
+				continue
+			}
+			if p, ok := m.Pods[e.Key()]; ok && m.Active(p) && !seen[e.Key()] {
+				seen[e.Key()] = true // a pod moved by one action and evicted again by the next is one lost member
+				evicted[podSetOf(p)]++
+			}
+		}
+		for s, n := range evicted {
 			if min, ok := mins[s]; ok && before[s]-n < min {
 				return false
 			}
@@ -225,7 +229,7 @@ func CheckC06(m *Model, events []sched.Event, cycle int, now time.Time, st *Stat
 		if prot {
 			st.Inc("evictions_of_protected_workload")
 		}
-		if prot && robust && !staysAboveMin(e.Group) {
+		if prot && robust && !staysAboveMin(e.Group, e.Action) {
 			out = append(out, Viol("C06", "victim-inside-min-runtime", act, cycle, "%s evicted pod %s of workload %s which started at %s and is inside its minimum runtime, and the workload does not stay at its minimum size", act, e.Key(), vpg.Name, vpg.Annotations["kai.scheduler/last-start-timestamp"]))
 		}
 		// committed together with the placement of the preemptor
